@@ -13,7 +13,7 @@ import json
 import os
 import time
 
-from rules import driver, core, absint
+from rules import driver, core, absint, r_outdef
 from rules.core import walk, key, const_val
 
 ENGINE_FILES = ["rules/absint.py", "rules/lp.py", "rules/core.py", "props/memsafe.py"]
@@ -675,6 +675,7 @@ def run_scope(rep, tier, us, exclude=(), only=None, budget_quick=45, extra_rules
             stale_length_rule(rep, fn)
             stale_remaining_rule(rep, fn)
             stale_end_rule(rep, fn)
+            r_outdef.check(rep, fn)
             for r in extra_rules:
                 r(rep, fn)
     return nfn, total
